@@ -180,6 +180,25 @@ macro_rules! define_hasher {
             }
         }
 
+        /// Verification hooks (cfg cryptocorrosion_verif): read / overwrite the length counter, read the chaining value.
+        #[cfg(cryptocorrosion_verif)]
+        impl $name {
+            pub fn verif_set_counter(&mut self, t0: $word, t1: $word) {
+                self.t = (t0, t1);
+            }
+            pub fn verif_counter(&self) -> ($word, $word) {
+                self.t
+            }
+            pub fn verif_chain(&self) -> [$word; 8] {
+                let a: [$word; 4] = self.compressor.h[0].into();
+                let b: [$word; 4] = self.compressor.h[1].into();
+                [a[0], a[1], a[2], a[3], b[0], b[1], b[2], b[3]]
+            }
+            pub fn verif_buffer_pos(&self) -> usize {
+                self.buffer.position()
+            }
+        }
+
         impl Default for $name {
             fn default() -> Self {
                 Self {
